@@ -35,6 +35,9 @@ def run(ctx: Ctx) -> None:
     terminal_callers_rule(ctx, "R-C14-REDELIVER", ops=("reject", "requeue"))
     race(ctx, "R-C14-REDELIVER")
     maintenance(ctx, "R-C14-REDELIVER")
+    from .brokers import rabbit_bounce_rules
+
+    rabbit_bounce_rules(ctx, "R-C14-TAKE")
     from .C03 import shutdown
 
     shutdown(ctx, "R-C14-SHUTDOWN")  # held messages are handed back (finish) only after the executions holding them have ended
